@@ -3,6 +3,7 @@
    Lagrange basis polynomials of Proofs/LagrDefs.v.  Statements used by Props/C05.v:
    basis_is_lagrange, init_weights_ok, extend_weights_ok, interp_poly_spec. *)
 From mathcomp Require Import all_ssreflect all_algebra.
+From mathcomp Require Import ring.
 From AmiscV Require Import Field Lagr LagrDefs.
 Set Implicit Arguments. Unset Strict Implicit. Unset Printing Implicit Defensive.
 Import GRing.Theory Num.Theory.
@@ -128,3 +129,260 @@ move=> p sp H; rewrite -[LHS](interp_poly_exact U sp).
 by apply: eq_interp_poly => j jlt; rewrite (nth_map 0) // H.
 Qed.
 End Poly.
+
+(* ------------------------------------------------------------------ stdlib list functions vs seq *)
+Section ListBridge.
+Variables (A B C : Type).
+
+Lemma lmapE (f : A -> B) (l : seq A) : List.map f l = [seq f a | a <- l].
+Proof. by elim: l => //= a l ->. Qed.
+
+Lemma llengthE (l : seq A) : length l = size l.
+Proof. by []. Qed.
+
+Lemma lnthE (d : A) (l : seq A) (i : nat) : List.nth i l d = nth d l i.
+Proof. by elim: l i => [|a l IH] [|i] //=. Qed.
+
+Lemma lseqE (m n : nat) : List.seq m n = iota m n.
+Proof. by elim: n m => //= n IH m; rewrite IH. Qed.
+
+Lemma lfilterE (a : pred A) (l : seq A) : List.filter a l = filter a l.
+Proof. by elim: l => //= x l ->. Qed.
+
+Lemma lappE (l m : seq A) : (l ++ m)%list = l ++ m.
+Proof. by elim: l => //= x l ->. Qed.
+
+Lemma size_map2 (f : A -> B -> C) (l : seq A) (m : seq B) :
+  size (map2 f l m) = minn (size l) (size m).
+Proof. by elim: l m => [|a l IH] [|b m] //=; rewrite IH minnSS. Qed.
+
+Lemma nth_map2 (f : A -> B -> C) (a0 : A) (b0 : B) (c0 : C) (l : seq A) (m : seq B) (i : nat) :
+  (i < size l)%N -> (i < size m)%N -> nth c0 (map2 f l m) i = f (nth a0 l i) (nth b0 m i).
+Proof. by elim: l m i => [|a l IH] [|b m] [|i] //=; apply: IH. Qed.
+
+Lemma map2_mkseq (f : A -> B -> C) (a0 : A) (b0 : B) (l : seq A) (m : seq B) :
+  size l = size m -> map2 f l m = mkseq (fun i => f (nth a0 l i) (nth b0 m i)) (size l).
+Proof.
+move=> e; apply: (@eq_from_nth _ (f a0 b0)); first by rewrite size_map2 size_mkseq -e minnn.
+move=> i; rewrite size_map2 -e minnn => ilt.
+by rewrite nth_mkseq // (nth_map2 _ a0 b0) // -e.
+Qed.
+End ListBridge.
+
+Lemma count_trueE (l : seq bool) : count_true l = count id l.
+Proof. by rewrite /count_true llengthE lfilterE size_filter. Qed.
+
+(* ------------------------------------------------------------------ derived operations at mc_ops *)
+Section OpsBridge.
+Variable F : realFieldType.
+Implicit Types (x y : F) (l : seq F).
+
+Lemma absF_mc x : absF (mc_ops F) x = `|x|.
+Proof.
+rewrite /absF /=; case: (lerP 0 x) => h; first by rewrite ger0_norm.
+by rewrite ltr0_norm.
+Qed.
+
+Lemma divF_mc x y : divF (mc_ops F) x y = x / y.
+Proof. by []. Qed.
+
+Lemma sumF_mc l : sumF (mc_ops F) l = \sum_(y <- l) y.
+Proof. by elim: l => [|a l IH]; rewrite ?big_nil ?big_cons //= -IH. Qed.
+
+Lemma prodF_mc l : prodF (mc_ops F) l = \prod_(y <- l) y.
+Proof. by elim: l => [|a l IH]; rewrite ?big_nil ?big_cons //= -IH. Qed.
+
+Lemma snapped_mc (tol x xk : F) : snapped (mc_ops F) tol x xk = (`|x - xk| <= tol).
+Proof. by rewrite /snapped absF_mc. Qed.
+End OpsBridge.
+
+(* ------------------------------------------------------------------ products over a node list *)
+Section Nodes.
+Variable F : realFieldType.
+Implicit Types (xs ws : seq F) (x xj xk tol kappa : F).
+
+Lemma prod_const_seq (T : Type) (s : seq T) (c : F) : \prod_(i <- s) c = c ^+ size s.
+Proof. by elim: s => [|a s IH]; rewrite ?big_nil ?big_cons ?expr0 // IH exprS. Qed.
+
+Lemma big_notin_cond (R : Type) (idx : R) (op : R -> R -> R) xs xn (G : F -> R) :
+  xn \notin xs -> \big[op/idx]_(xi <- xs | xi != xn) G xi = \big[op/idx]_(xi <- xs) G xi.
+Proof.
+move=> nin; rewrite big_seq_cond [RHS]big_seq_cond; apply: eq_bigl => xi.
+by case: (boolP (xi \in xs)) => //= xin; apply: contraNneq nin => <-.
+Qed.
+
+(* the node polynomial without the factor of x_j *)
+Lemma prod_rem xs xj (G : F -> F) : uniq xs -> xj \in xs ->
+  \prod_(xi <- xs) G xi = G xj * \prod_(xi <- xs | xi != xj) G xi.
+Proof. by move=> U jin; rewrite (bigD1_seq xj). Qed.
+
+Lemma prod_sub_neq0 xs x : x \notin xs -> \prod_(xi <- xs) (x - xi) != 0.
+Proof.
+move=> nin; rewrite prodf_seq_neq0; apply/allP => xi xin /=.
+by rewrite subr_eq0; apply: contraNneq nin => ->.
+Qed.
+
+Lemma prod_sub_neq0_cond xs xj : \prod_(xi <- xs | xi != xj) (xj - xi) != 0.
+Proof.
+by rewrite prodf_seq_neq0; apply/allP => xi xin /=; apply/implyP; rewrite subr_eq0 eq_sym.
+Qed.
+
+(* value of a basis polynomial off the nodes, in barycentric form *)
+Lemma lbase_bary kappa xs xj x : uniq xs -> xj \in xs -> x \notin xs -> kappa != 0 ->
+  (lbase xs xj).[x] =
+  (\prod_(xi <- xs) (x - xi)) / kappa * (kappa / (\prod_(xi <- xs | xi != xj) (xj - xi)) / (x - xj)).
+Proof.
+move=> U jin nin k0.
+have xj0 : x - xj != 0 by rewrite subr_eq0; apply: contraNneq nin => ->.
+rewrite lbase_split hornerZ horner_prod.
+have -> : \prod_(xi <- xs | xi != xj) ('X - xi%:P).[x] = \prod_(xi <- xs | xi != xj) (x - xi).
+  by apply: eq_bigr => i _; rewrite hornerXsubC.
+rewrite (prod_rem (fun xi => x - xi) U jin).
+set P := \prod_(xi <- xs | xi != xj) (xj - xi); set L := \prod_(_ <- _ | _) (x - _).
+have P0 : P != 0 by exact: prod_sub_neq0_cond.
+by field; rewrite xj0 P0 k0.
+Qed.
+End Nodes.
+
+(* ------------------------------------------------------------------ basis1 *)
+Section Basis.
+Variable F : realFieldType.
+Implicit Types (xs ws : seq F) (x xj xk tol kappa : F).
+
+Lemma basis1_nosnap tol kappa xs ws x : uniq xs -> kappa != 0 -> bary_weights kappa xs ws ->
+  x \notin xs -> (forall xk, xk \in xs -> ~~ (`|x - xk| <= tol)) ->
+  basis1 (mc_ops F) tol xs ws x = [seq (lbase xs xk).[x] | xk <- xs].
+Proof.
+move=> U k0 [sw Hw] nin far; rewrite /basis1.
+have -> : diffs1 (mc_ops F) tol xs x = [seq (x - xk, false) | xk <- xs].
+  rewrite /diffs1 lmapE; apply/eq_in_map => xk kin.
+  by rewrite snapped_mc (negbTE (far _ kin)).
+set ds := [seq (x - xk, false) | xk <- xs].
+have sds : size ds = size xs by rewrite size_map.
+have -> : count_true (List.map snd ds) = 0%N.
+  by rewrite count_trueE lmapE -map_comp count_map (@eq_count _ _ pred0) ?count_pred0.
+set quot := map2 _ ws ds.
+have squot : size quot = size xs by rewrite size_map2 sw sds minnn.
+have nthq j : (j < size xs)%N -> nth 0 quot j = nth 0 ws j / (x - nth 0 xs j).
+  by move=> jlt; rewrite (nth_map2 _ 0 (0, false)) ?sw ?sds // (nth_map 0).
+rewrite sumF_mc.
+have -> : \sum_(y <- quot) y = \sum_(j < size xs) nth 0 ws j / (x - nth 0 xs j).
+  rewrite (big_nth 0) squot big_mkord; apply: eq_bigr => j _; exact: nthq.
+set qsum := \sum_(j < _) _.
+apply: (@eq_from_nth _ 0); first by rewrite size_map2 squot sds minnn size_map.
+move=> i; rewrite size_map2 squot sds minnn => ilt.
+have n0 : (0 < size xs)%N by exact: leq_ltn_trans ilt.
+rewrite (nth_map2 _ 0 (0, false)) ?squot ?sds // (nth_map 0) //= (nth_map 0) // nthq //.
+rewrite /divF /=.
+set L := \prod_(xi <- xs) (x - xi).
+have lb j : (j < size xs)%N ->
+    (lbase xs (nth 0 xs j)).[x] = L / kappa * (nth 0 ws j / (x - nth 0 xs j)).
+  by move=> jlt; rewrite (lbase_bary U _ nin k0) ?mem_nth // Hw.
+have Lk : L / kappa * qsum = 1.
+  rewrite mulr_sumr -(sum_lbase_horner_eq1 x U n0); apply: eq_bigr => j _.
+  by rewrite lb.
+have q0 : qsum != 0.
+  by apply: contraTneq (oner_neq0 F) => q0; rewrite -Lk q0 mulr0 eqxx.
+by rewrite lb // -[in RHS](mulfK q0 (L / kappa)) Lk mul1r mulrC.
+Qed.
+
+Lemma basis1_snap tol xs ws x : uniq xs -> size ws = size xs -> 0 <= tol -> x \in xs ->
+  (forall xk, xk \in xs -> xk != x -> ~~ (`|x - xk| <= tol)) ->
+  basis1 (mc_ops F) tol xs ws x = [seq (lbase xs xk).[x] | xk <- xs].
+Proof.
+move=> U sw tol0 xin far; rewrite /basis1.
+have -> : diffs1 (mc_ops F) tol xs x = [seq (if xk == x then 1 else x - xk, xk == x) | xk <- xs].
+  rewrite /diffs1 lmapE; apply/eq_in_map => xk kin.
+  rewrite snapped_mc; case: (altP (xk =P x)) => [->|ne]; first by rewrite subrr normr0 tol0.
+  by rewrite (negbTE (far _ kin ne)).
+set ds := [seq (if xk == x then 1 else x - xk, xk == x) | xk <- xs].
+have sds : size ds = size xs by rewrite size_map.
+have -> : count_true (List.map snd ds) = 1%N.
+  rewrite count_trueE lmapE -map_comp count_map (@eq_count _ _ (pred1 x)) //.
+  by rewrite count_uniq_mem // xin.
+set quot := map2 _ ws ds.
+have squot : size quot = size xs by rewrite size_map2 sw sds minnn.
+apply: (@eq_from_nth _ 0); first by rewrite size_map2 squot sds minnn size_map.
+move=> i; rewrite size_map2 squot sds minnn => ilt.
+rewrite (nth_map2 _ 0 (0, false)) ?squot ?sds // (nth_map 0) //= (nth_map 0) //.
+case: (altP (nth 0 xs i =P x)) => [->|ne] /=; first by rewrite lbase_eq.
+by rewrite lbase_neq // eq_sym.
+Qed.
+
+Theorem basis_is_lagrange tol kappa xs ws x :
+  uniq xs -> kappa != 0 -> bary_weights kappa xs ws -> admissible tol xs x ->
+  basis1 (mc_ops F) tol xs ws x = [seq (lbase xs xk).[x] | xk <- xs].
+Proof.
+move=> U k0 bw [[nin far]|[tol0 [xin far]]]; first exact: (basis1_nosnap U k0 bw).
+by case: bw => sw _; exact: basis1_snap.
+Qed.
+End Basis.
+
+(* ------------------------------------------------------------------ barycentric weights *)
+Lemma nat_eqbE (i j : nat) : PeanoNat.Nat.eqb i j = (i == j).
+Proof. by elim: i j => [|i IH] [|j] //=. Qed.
+
+Section Weights.
+Variable F : realFieldType.
+Implicit Types (xs ws news : seq F) (x xj xk xn C : F).
+
+Lemma prod_nodes_ord xs j (G : F -> F) : uniq xs -> (j < size xs)%N ->
+  \prod_(xi <- xs | xi != nth 0 xs j) G xi = \prod_(i < size xs | (i : nat) != j) G (nth 0 xs i).
+Proof.
+move=> U jlt; rewrite (big_nth 0) big_mkord; apply: eq_bigl => i.
+by rewrite nth_uniq.
+Qed.
+
+Theorem init_weights_ok C xs : uniq xs -> C != 0 ->
+  bary_weights (C ^+ (size xs).-1) xs (init_weights (mc_ops F) C xs).
+Proof.
+move=> U C0; rewrite /init_weights lmapE llengthE lseqE.
+split; first by rewrite size_map size_iota.
+move=> j jlt; rewrite (nth_map 0%N) ?size_iota // nth_iota // add0n /=.
+rewrite lmapE prodF_mc big_map -[X in iota _ X]subn0 -/(index_iota 0 (size xs)) big_mkord.
+rewrite (eq_bigr (fun i : 'I_(size xs) =>
+           if (i : nat) != j then (nth 0 xs j - nth 0 xs i) / C else 1)); last first.
+  by move=> i _; rewrite nat_eqbE !lnthE; case: eqP.
+rewrite -big_mkcond /= prodf_div invf_div prod_nodes_ord //; congr (_ / _).
+rewrite prodr_const (@eq_card _ _ (predC1 (Ordinal jlt))) ?cardC1 ?card_ord //.
+Qed.
+
+(* one incremental step: the old weights times C/(x_i - x_new), and the new weight *)
+Lemma extend1_ok C xs ws xn : uniq (xs ++ [:: xn]) -> C != 0 ->
+  bary_weights (C ^+ (size xs).-1) xs ws ->
+  bary_weights (C ^+ (size xs)) (xs ++ [:: xn])
+    (map2 (fun w xi => w * (C / (xi - xn))) ws xs ++ [:: \prod_(xi <- xs) (C / (xn - xi))]).
+Proof.
+rewrite cats1 rcons_uniq -cats1 => /andP[nin U] C0 [sw Hw].
+have sw1 : size (map2 (fun w xi => w * (C / (xi - xn))) ws xs) = size xs.
+  by rewrite size_map2 sw minnn.
+split; first by rewrite !size_cat sw1.
+move=> j; rewrite size_cat /= addn1 ltnS leq_eqVlt => /orP[/eqP ->|jlt].
+- rewrite !nth_cat sw1 ltnn subnn /= big_cat /= big_cons big_nil eqxx /= mulr1.
+  by rewrite big_notin_cond // prodf_div prod_const_seq.
+- rewrite !nth_cat sw1 jlt (nth_map2 _ 0 0) ?sw // Hw //.
+  set xj := nth 0 xs j.
+  have jin : xj \in xs by rewrite mem_nth.
+  have ne : xn != xj by apply: contraNneq nin => ->.
+  rewrite big_cat /= big_cons big_nil ne mulr1.
+  have e : (size xs) = (size xs).-1.+1 by rewrite prednK //; exact: leq_ltn_trans jlt.
+  rewrite [in RHS]e exprSr.
+  have P0 := prod_sub_neq0_cond xs xj.
+  have d0 : xj - xn != 0 by rewrite subr_eq0 eq_sym.
+  by field; rewrite d0 P0.
+Qed.
+
+Theorem extend_weights_ok C xs ws news :
+  uniq (xs ++ news) -> C != 0 -> bary_weights (C ^+ (size xs).-1) xs ws ->
+  (extend_weights (mc_ops F) C xs ws news).1 = xs ++ news /\
+  bary_weights (C ^+ (size (xs ++ news)).-1) (xs ++ news) (extend_weights (mc_ops F) C xs ws news).2.
+Proof.
+elim: news xs ws => [|xn rest IH] xs ws U C0 bw /=; first by rewrite cats0.
+rewrite !lappE lmapE prodF_mc big_map.
+have U1 : uniq ((xs ++ [:: xn]) ++ rest) by rewrite -catA.
+have bw1 := @extend1_ok C xs ws xn _ C0 bw.
+have := IH (xs ++ [:: xn]) _ U1 C0; rewrite -catA /= size_cat /= addn1 /=.
+apply; apply: bw1.
+by move: U1; rewrite cat_uniq => /andP[].
+Qed.
+End Weights.
